@@ -1358,4 +1358,430 @@ theorem createDirectory_exact (X : XCtx) (htmp : ∀ k l, isTemporaryName (X.env
                   rw [h4] at hF5
                   exact FrameT.trans (FrameT.of_frame hfr3) hF5
 
+/-! ## One transition -/
+
+/-- The standing hypotheses of the exactness theorems. -/
+structure XHyp (X : XCtx) : Prop where
+  tmp : ∀ k l, isTemporaryName (X.env.tmpName k l) = true
+  mode : FileModeOK X.env
+  ord : OrdComplete X.env
+  root : isTemporaryName X.env.rootName = false
+
+theorem tempFree_root {X : XCtx} (hx : XHyp X) {path : Path} (hp : TempFree path) : TempFree (X.env.rootName :: path) :=
+  tempFree_cons hx.root hp
+
+theorem last_not_temp {h : Handle} {name : Name} {q : List Name} (he : h ++ [name] = q) (hq : TempFree q) :
+    isTemporaryName name = false := by
+  apply hq
+  rw [← he]; simp
+
+theorem unsync_unch (X : XCtx) (fs fs' : Node) (q : List Name) (p : Path) (hq : TempFree q) (hu : Unch fs fs')
+    (h : UnsyncAt X fs q p) : UnsyncAt X fs' q p :=
+  unsync_same X fs fs' q p (hu q hq) h
+
+theorem rep_unch (X : XCtx) (fs fs' : Node) (q : List Name) (p : Path) (e : Entry) (hq : TempFree q) (hu : Unch fs fs')
+    (h : RepAt X fs q p e) : RepAt X fs' q p e :=
+  rep_same X fs fs' q p e h (sameBelow_of_unch fs fs' q hu hq)
+
+theorem remove_exact (X : XCtx) (hx : XHyp X) (st : St) (path : Path) (old : Option Entry) (hp : TempFree path)
+    (hrep : RepO X st.fs (X.env.rootName :: path) path old) :
+    (remove X.env st path old).2.staged = st.staged ∧
+    FrameT st.fs (remove X.env st path old).2.fs (X.env.rootName :: path) ∧
+    RepO X (remove X.env st path old).2.fs (X.env.rootName :: path) path (remove X.env st path old).1 := by
+  have hq0 := tempFree_root hx hp
+  cases old with
+  | none => simp only [remove]; exact ⟨trivial, FrameT.refl _ _, hrep⟩
+  | some e =>
+    have hrep' : RepAt X st.fs (X.env.rootName :: path) path e := hrep
+    unfold remove
+    have hws := walkToParent_spec X.env st path true
+    have hwq := walkToParent_quiet X.env st path true
+    rcases hwk : walkToParent X.env st path true with ⟨w, st1⟩
+    rw [hwk] at hws hwq
+    simp only at hws hwq
+    have hrep1 : RepAt X st1.fs (X.env.rootName :: path) path e := by rw [hws.1]; exact hrep'
+    cases w with
+    | none =>
+      simp only
+      exact ⟨hwq.2, by simp [hws.1, FrameT.refl], by simpa [RepO] using hrep1⟩
+    | some hn =>
+      obtain ⟨parent, name⟩ := hn
+      have hq := hws.2 parent name rfl
+      simp only
+      split
+      · rename_i hk
+        have hkd : e.kind = .directory := by simpa using hk
+        have hr := removeDirectory_exact X hx.ord e.size st1 parent name path e (by rw [hq]; exact hq0) hkd
+          (by rw [hq]; exact hrep1)
+        rcases hrd : removeDirectory X.env e.size st1 parent name path e with ⟨ok, red, st2⟩
+        rw [hrd] at hr
+        simp only at hr
+        obtain ⟨hf, hs, hok, hno⟩ := hr
+        rw [hq, hws.1] at hf
+        rw [hq] at hok hno
+        cases ok with
+        | true =>
+          exact ⟨by rw [hs]; exact hwq.2, hf, unsync_of_none X _ _ _ (hok rfl)⟩
+        | false => exact ⟨by rw [hs]; exact hwq.2, hf, hno rfl⟩
+      · split
+        · rcases hrf : removeFile X.env st1 parent name path e with ⟨r, st2⟩
+          obtain ⟨hqt, heff⟩ := removeFile_eff X.env st1 parent name path e r st2 hrf
+          rcases heff with ⟨hr, hu⟩ | ⟨hr, hfs⟩
+          · subst hr
+            obtain ⟨_, hnone, hfr⟩ := fsUnlink_spec _ _ _ _ hu
+            rw [hq] at hnone hfr
+            rw [hws.1] at hfr
+            exact ⟨by rw [hqt.2]; exact hwq.2, FrameT.of_frame hfr, unsync_of_none X _ _ _ (by simp [sget, hnone])⟩
+          · cases r with
+            | none => exact absurd rfl hr
+            | some err =>
+              refine ⟨by simp [hqt.2, hwq.2], by simp [hfs, hws.1, FrameT.refl], ?_⟩
+              simp only [RepO, problem_fs, hfs]; exact hrep1
+        · split
+          · rcases hrf : removeSymbolicLink X.env st1 parent name path e with ⟨r, st2⟩
+            obtain ⟨hqt, heff⟩ := removeSymbolicLink_eff X.env st1 parent name path e r st2 hrf
+            rcases heff with ⟨hr, hu⟩ | ⟨hr, hfs⟩
+            · subst hr
+              obtain ⟨_, hnone, hfr⟩ := fsUnlink_spec _ _ _ _ hu
+              rw [hq] at hnone hfr
+              rw [hws.1] at hfr
+              exact ⟨by rw [hqt.2]; exact hwq.2, FrameT.of_frame hfr, unsync_of_none X _ _ _ (by simp [sget, hnone])⟩
+            · cases r with
+              | none => exact absurd rfl hr
+              | some err =>
+                refine ⟨by simp [hqt.2, hwq.2], by simp [hfs, hws.1, FrameT.refl], ?_⟩
+                simp only [RepO, problem_fs, hfs]; exact hrep1
+          · refine ⟨by simp [hwq.2], by simp [hws.1, FrameT.refl], ?_⟩
+            simp only [RepO, problem_fs]; exact hrep1
+
+theorem create_exact (X : XCtx) (hx : XHyp X) (st : St) (path : Path) (target : Option Entry) (hp : TempFree path)
+    (hg : ∀ e, target = some e → GoodNew e) (hH : Honest X st)
+    (hun : UnsyncAt X st.fs (X.env.rootName :: path) path) :
+    StagedShrinks st (create X.env st path target).2 ∧
+    FrameT st.fs (create X.env st path target).2.fs (X.env.rootName :: path) ∧
+    RepO X (create X.env st path target).2.fs (X.env.rootName :: path) path (create X.env st path target).1 := by
+  have hq0 := tempFree_root hx hp
+  cases target with
+  | none => simp only [create]; exact ⟨StagedShrinks.refl _, FrameT.refl _ _, hun⟩
+  | some e =>
+    have hge := hg e rfl
+    unfold create
+    have hws := walkToParent_spec X.env st path false
+    have hwq := walkToParent_quiet X.env st path false
+    rcases hwk : walkToParent X.env st path false with ⟨w, st1⟩
+    rw [hwk] at hws hwq
+    simp only at hws hwq
+    have hun1 : UnsyncAt X st1.fs (X.env.rootName :: path) path := by rw [hws.1]; exact hun
+    have hH1 : Honest X st1 := hH.of_eq hwq.2
+    have hS1 : StagedShrinks st st1 := StagedShrinks.of_eq hwq.2
+    -- nothing but temporaries changed, nothing is reported
+    have hnothing : ∀ st2 : St, Unch st1.fs st2.fs → StagedShrinks st1 st2 →
+        StagedShrinks st st2 ∧ FrameT st.fs st2.fs (X.env.rootName :: path) ∧
+        RepO X st2.fs (X.env.rootName :: path) path none := by
+      intro st2 hu hs
+      refine ⟨hS1.trans hs, ?_, unsync_unch X _ _ _ _ hq0 hu hun1⟩
+      rw [← hws.1]; exact hu.frame _
+    cases w with
+    | none => simp only; exact hnothing _ (by simp [Unch.refl]) (StagedShrinks.of_eq (by simp))
+    | some hn =>
+      obtain ⟨parent, name⟩ := hn
+      have hq := hws.2 parent name rfl
+      have hname := last_not_temp hq hq0
+      simp only
+      split
+      · rename_i hk
+        have hkd : e.kind = .directory := by simpa using hk
+        have hr := createDirectory_exact X hx.tmp hx.mode e.size st1 parent name path e (by rw [hq]; exact hq0) hge hkd hH1
+        rcases hcd : createDirectory X.env e.size st1 parent name path e with ⟨c, st2⟩
+        rw [hcd] at hr
+        simp only at hr
+        obtain ⟨hs, hnone, hsome⟩ := hr
+        cases c with
+        | none => exact hnothing st2 (hnone rfl) hs
+        | some ce =>
+          obtain ⟨_, hrep, hf⟩ := hsome ce rfl
+          rw [hq] at hrep hf
+          rw [hws.1] at hf
+          exact ⟨hS1.trans hs, hf, hrep⟩
+      · split
+        · rename_i hk
+          have hkf : e.kind = .file := by simpa using hk
+          obtain ⟨x, d, hshape⟩ := goodNew_file_shape e hge hkf
+          rcases hf : findAndMove X.env st1 path e parent name false with ⟨r, st2⟩
+          obtain ⟨_, hs, hfail, hok, _⟩ := findAndMove_eff X.env hx.tmp st1 path e parent name hname false r st2 hf
+          cases r with
+          | some err => exact hnothing _ (by simpa using hfail (by simp)) (by intro k f hk; exact hs k f (by simpa using hk))
+          | none =>
+            obtain ⟨sf, hsf, hm⟩ := hok rfl
+            have hd : X.H sf.data = d := by
+              have := hH1 _ sf hsf
+              rw [this, hshape]; rfl
+            have hrep : RepAt X st2.fs (parent ++ [name]) path e := by
+              rw [hshape] at hm ⊢
+              exact rep_of_moved X hx.mode st1 st2 parent name path x d sf false hd hm
+            obtain ⟨_, _, _, _, _, hfr, _⟩ := hm
+            rw [hq] at hrep hfr
+            rw [hws.1] at hfr
+            exact ⟨hS1.trans hs, hfr, hrep⟩
+        · split
+          · rename_i hk
+            have hkl : e.kind = .symlink := by simpa using hk
+            obtain ⟨t, hshape⟩ := goodNew_symlink_shape e hge hkl
+            rcases hf : createSymbolicLink X.env st1 parent name path e with ⟨r, st2⟩
+            obtain ⟨hst, hfail, hok⟩ := createSymbolicLink_eff X.env st1 parent name path e r st2 hf
+            cases r with
+            | some err =>
+              exact hnothing _ (Unch.of_eq (by simpa using hfail (by simp))) (StagedShrinks.of_eq (by simpa using hst))
+            | none =>
+              obtain ⟨hsl, hshown⟩ := hok rfl
+              obtain ⟨_, hget, hfr⟩ := fsSymlink_spec _ _ _ _ _ hsl
+              have hrep : RepAt X st2.fs (parent ++ [name]) path e := by
+                rw [hshape] at hshown hget ⊢
+                exact RepAt.symlink _ _ t t (sget_of_get _ _ _ hget) hshown
+              rw [hq] at hrep hfr
+              rw [hws.1] at hfr
+              exact ⟨hS1.trans (StagedShrinks.of_eq hst), FrameT.of_frame hfr, hrep⟩
+          · exact hnothing _ (by simp [Unch.refl]) (StagedShrinks.of_eq (by simp))
+
+theorem rep_file_shape (X : XCtx) (fs : Node) (q : List Name) (p : Path) (e : Entry) (h : RepAt X fs q p e)
+    (hk : e.kind = .file) :
+    ∃ d perm m i, sget fs q = some (.file d perm m i) ∧
+      e = .mk { kind := .file, executable := execOf perm, digest := X.H d } [] := by
+  cases h with
+  | file q p d perm m i hq => exact ⟨d, perm, m, i, hq, rfl⟩
+  | symlink q p t t' hq hl => simp [Entry.kind, Entry.props] at hk
+  | dir q p perm cs hq ht hkk hu => simp [Entry.kind, Entry.props] at hk
+
+theorem swap_exact (X : XCtx) (hx : XHyp X) (st : St) (path : Path) (oldE newE : Entry) (hp : TempFree path)
+    (hko : oldE.kind = .file) (hkn : newE.kind = .file) (hg : GoodNew newE) (hH : Honest X st)
+    (hrep : RepAt X st.fs (X.env.rootName :: path) path oldE) :
+    StagedShrinks st (swapFile X.env st path oldE newE).2 ∧
+    FrameT st.fs (swapFile X.env st path oldE newE).2.fs (X.env.rootName :: path) ∧
+    ((swapFile X.env st path oldE newE).1 ≠ none →
+      RepAt X (swapFile X.env st path oldE newE).2.fs (X.env.rootName :: path) path oldE) ∧
+    ((swapFile X.env st path oldE newE).1 = none →
+      RepAt X (swapFile X.env st path oldE newE).2.fs (X.env.rootName :: path) path newE) := by
+  have hq0 := tempFree_root hx hp
+  obtain ⟨x, dn, hshape⟩ := goodNew_file_shape newE hg hkn
+  obtain ⟨d0, perm0, m0, i0, hs0, hoshape⟩ := rep_file_shape X _ _ _ _ hrep hko
+  unfold swapFile
+  have hws := walkToParent_spec X.env st path true
+  have hwq := walkToParent_quiet X.env st path true
+  rcases hwk : walkToParent X.env st path true with ⟨w, st1⟩
+  rw [hwk] at hws hwq
+  simp only at hws hwq
+  have hS1 : StagedShrinks st st1 := StagedShrinks.of_eq hwq.2
+  -- a failure that changed nothing but temporaries
+  have hfailed : ∀ (e : String) (st2 : St), Unch st.fs st2.fs → StagedShrinks st st2 →
+      StagedShrinks st ((some e : Option String), st2).2 ∧
+      FrameT st.fs ((some e : Option String), st2).2.fs (X.env.rootName :: path) ∧
+      (((some e : Option String), st2).1 ≠ none → RepAt X ((some e : Option String), st2).2.fs (X.env.rootName :: path) path oldE) ∧
+      (((some e : Option String), st2).1 = none → RepAt X ((some e : Option String), st2).2.fs (X.env.rootName :: path) path newE) := by
+    intro e st2 hu hs
+    exact ⟨hs, hu.frame _, fun _ => rep_unch X _ _ _ _ _ hq0 hu hrep, fun hc => (by cases hc)⟩
+  cases w with
+  | none => exact hfailed _ st1 (Unch.of_eq hws.1) hS1
+  | some hn =>
+    obtain ⟨parent, name⟩ := hn
+    have hq := hws.2 parent name rfl
+    have hname := last_not_temp hq hq0
+    simp only
+    have hcq := ensureExpectedFile_quiet X.env st1 parent name path oldE
+    rcases hc : ensureExpectedFile X.env st1 parent name path oldE with ⟨r1, st2⟩
+    have hfs := (ensureExpectedFile_spec X.env st1 parent name path oldE r1 st2 hc).1
+    rw [hc] at hcq
+    simp only at hcq
+    have h2 : st2.fs = st.fs := by rw [hfs]; exact hws.1
+    have hS2 : StagedShrinks st st2 := hS1.trans (StagedShrinks.of_eq hcq.2)
+    have hH2 : Honest X st2 := hH.shrinks hS2
+    cases r1 with
+    | some e => exact hfailed e st2 (Unch.of_eq h2) hS2
+    | none =>
+      simp only
+      split
+      · -- same content: only the permission bits change
+        rename_i hdig
+        have hdig' : oldE.props.digest = newE.props.digest := by simpa using hdig
+        have hmo := hx.mode newE.props.executable
+        rcases hcm : opChmod X.env st2 parent name
+            (if newE.props.executable = true then markExecutableForReaders X.env.fileMode else X.env.fileMode)
+          with ⟨b, st3⟩
+        obtain ⟨hq3, hc3⟩ := opChmod_eff X.env st2 parent name _ b st3 hcm
+        have hS3 : StagedShrinks st st3 := hS2.trans (StagedShrinks.of_eq hq3.2)
+        rcases hc3 with ⟨hb, hm, _⟩ | ⟨hb, hm, hch⟩ | ⟨hb, hfs3⟩
+        · exact absurd hm hmo.2
+        · subst hb
+          simp only
+          obtain ⟨_, hfr, _, hfile⟩ := fsChmod_spec st2.fs st3.fs parent name _ hch
+          rw [hq, h2] at hfile hfr
+          have hnew := hfile d0 perm0 m0 i0 hs0
+          refine ⟨hS3, ?_, fun hc => absurd rfl hc, fun _ => ?_⟩
+          · intro q _ hnp
+            rw [hfr q (by rintro rfl; exact hnp (List.prefix_refl _))]
+          · have := RepAt.file (X := X) (top := st3.fs) (X.env.rootName :: path) path d0 _ m0 i0 hnew
+            rw [hmo.1] at this
+            rw [hshape]
+            rw [hshape] at hdig'
+            rw [hoshape] at hdig'
+            simp only [Entry.props] at hdig'
+            rw [hdig'] at this
+            rw [hshape] at this
+            exact this
+        · subst hb
+          simp only
+          exact hfailed _ st3 (Unch.of_eq (by rw [hfs3]; exact h2)) hS3
+      · -- different content: move the staged file over the old one
+        rcases hf : findAndMove X.env st2 path newE parent name true with ⟨r, st3⟩
+        obtain ⟨_, hs, hfail, hok, _⟩ := findAndMove_eff X.env hx.tmp st2 path newE parent name hname true r st3 hf
+        cases r with
+        | some err =>
+          have hu : Unch st.fs st3.fs := by rw [← h2]; exact hfail (by simp)
+          exact hfailed err st3 hu (hS2.trans hs)
+        | none =>
+          obtain ⟨sf, hsf, hm⟩ := hok rfl
+          have hd : X.H sf.data = dn := by
+            have := hH2 _ sf hsf
+            rw [this, hshape]; rfl
+          have hrepn : RepAt X st3.fs (parent ++ [name]) path newE := by
+            rw [hshape] at hm ⊢
+            exact rep_of_moved X hx.mode st2 st3 parent name path x dn sf true hd hm
+          obtain ⟨_, _, _, _, _, hfr, _⟩ := hm
+          rw [hq] at hrepn hfr
+          rw [h2] at hfr
+          exact ⟨hS2.trans hs, hfr, fun hc => absurd rfl hc, fun _ => hrepn⟩
+
+/-- Exactness of one iteration of `Transition`. -/
+theorem step_exact (X : XCtx) (hx : XHyp X) (st : St) (t : Change) (hp : TempFree t.path)
+    (hg : ∀ e, t.new = some e → GoodNew e) (hH : Honest X st)
+    (hrep : RepO X st.fs (X.env.rootName :: t.path) t.path t.old) :
+    StagedShrinks st (step X.env st t).2 ∧
+    FrameT st.fs (step X.env st t).2.fs (X.env.rootName :: t.path) ∧
+    RepO X (step X.env st t).2.fs (X.env.rootName :: t.path) t.path (step X.env st t).1 := by
+  unfold step
+  split
+  · exact ⟨StagedShrinks.of_eq rfl, FrameT.refl _ _, hrep⟩
+  · have hgen : ∀ o, o = t.old →
+        StagedShrinks st (match remove X.env st t.path o with
+          | (some r, st) => (some r, st)
+          | (none, st) => create X.env st t.path t.new).2 ∧
+        FrameT st.fs (match remove X.env st t.path o with
+          | (some r, st) => (some r, st)
+          | (none, st) => create X.env st t.path t.new).2.fs (X.env.rootName :: t.path) ∧
+        RepO X (match remove X.env st t.path o with
+          | (some r, st) => (some r, st)
+          | (none, st) => create X.env st t.path t.new).2.fs (X.env.rootName :: t.path) t.path
+          (match remove X.env st t.path o with
+          | (some r, st) => (some r, st)
+          | (none, st) => create X.env st t.path t.new).1 := by
+      intro o ho
+      subst ho
+      obtain ⟨hs1, hf1, hr1⟩ := remove_exact X hx st t.path t.old hp hrep
+      rcases hr : remove X.env st t.path t.old with ⟨r, st1⟩
+      rw [hr] at hs1 hf1 hr1
+      simp only at hs1 hf1 hr1
+      cases r with
+      | some e => exact ⟨StagedShrinks.of_eq hs1, hf1, hr1⟩
+      | none =>
+        obtain ⟨hs2, hf2, hr2⟩ := create_exact X hx st1 t.path t.new hp hg (hH.of_eq hs1) hr1
+        exact ⟨(StagedShrinks.of_eq hs1).trans hs2, FrameT.trans hf1 hf2, hr2⟩
+    split
+    · rename_i o n ho hn
+      split
+      · rename_i hkinds
+        have hko : o.kind = .file := by
+          simp only [Bool.and_eq_true, beq_iff_eq] at hkinds; exact hkinds.1
+        have hkn : n.kind = .file := by
+          simp only [Bool.and_eq_true, beq_iff_eq] at hkinds; exact hkinds.2
+        have hrepo : RepAt X st.fs (X.env.rootName :: t.path) t.path o := by rw [ho] at hrep; exact hrep
+        obtain ⟨hs, hf, hfail, hok⟩ := swap_exact X hx st t.path o n hp hko hkn (hg n hn) hH hrepo
+        rcases hsw : swapFile X.env st t.path o n with ⟨r, st1⟩
+        rw [hsw] at hs hf hfail hok
+        simp only at hs hf hfail hok
+        cases r with
+        | some e =>
+          exact ⟨fun k f hk => hs k f (by simpa using hk), by simpa using hf, by simpa [RepO] using hfail (by simp)⟩
+        | none => exact ⟨hs, hf, hok rfl⟩
+      · have := hgen (some o) ho.symm
+        rw [hn] at this
+        exact this
+    · exact hgen t.old rfl
+
+/-! ## The whole plan -/
+
+/-- Neither path is a prefix of the other. -/
+def Incomparable (a b : Path) : Prop := ¬ a <+: b ∧ ¬ b <+: a
+
+theorem SameBelow.trans {a b c : Node} {q : List Name} (h1 : SameBelow a b q) (h2 : SameBelow b c q) :
+    SameBelow a c q := fun r hr => (h2 r hr).trans (h1 r hr)
+
+theorem SameBelow.refl (a : Node) (q : List Name) : SameBelow a a q := fun _ _ => rfl
+
+theorem cons_prefix_cons_iff {α : Type} (x : α) (a b : List α) : (x :: a) <+: (x :: b) ↔ a <+: b := by
+  simp [List.cons_prefix_cons]
+
+/-- Pointwise relation of two lists of the same length. -/
+inductive Forall2 {α β : Type} (R : α → β → Prop) : List α → List β → Prop
+  | nil : Forall2 R [] []
+  | cons {a : α} {b : β} {as : List α} {bs : List β} : R a b → Forall2 R as bs → Forall2 R (a :: as) (b :: bs)
+
+theorem Forall2.get {α β : Type} {R : α → β → Prop} {as : List α} {bs : List β} (h : Forall2 R as bs) :
+    ∀ (i : Nat) (a : α) (b : β), as[i]? = some a → bs[i]? = some b → R a b := by
+  induction h with
+  | nil => intro i a b ha; simp at ha
+  | cons hab _ ih =>
+    intro i a b ha hb
+    cases i with
+    | zero => simp at ha hb; subst ha; subst hb; exact hab
+    | succ i => simp at ha hb; exact ih i a b ha hb
+
+/-- The hypotheses of exactness about one transition in a state. -/
+def StepPre (X : XCtx) (fs : Node) (t : Change) : Prop :=
+  TempFree t.path ∧ (∀ e, t.new = some e → GoodNew e) ∧ RepO X fs (X.env.rootName :: t.path) t.path t.old
+
+theorem transition_exact (X : XCtx) (hx : XHyp X) (plan : List Change) :
+    ∀ (st : St), Honest X st → (∀ t ∈ plan, StepPre X st.fs t) →
+      List.Pairwise (fun a b : Change => Incomparable a.path b.path) plan →
+      Forall2 (fun (t : Change) (r : Option Entry) =>
+          RepO X (transition X.env st plan).2.fs (X.env.rootName :: t.path) t.path r)
+        plan (transition X.env st plan).1 ∧
+      (∀ p, TempFree p → (∀ t ∈ plan, Incomparable p t.path) →
+        SameBelow st.fs (transition X.env st plan).2.fs (X.env.rootName :: p)) := by
+  induction plan with
+  | nil =>
+    intro st _ _ _
+    simp only [transition]
+    exact ⟨Forall2.nil, fun p _ _ => SameBelow.refl _ _⟩
+  | cons t ts ih =>
+    intro st hH hpre hpw
+    obtain ⟨hpt, hgt, hrt⟩ := hpre t (by simp)
+    obtain ⟨hs1, hf1, hr1⟩ := step_exact X hx st t hpt hgt hH hrt
+    rw [List.pairwise_cons] at hpw
+    obtain ⟨hinc, hpw'⟩ := hpw
+    unfold transition
+    rcases hstep : step X.env st t with ⟨r, st1⟩
+    rw [hstep] at hs1 hf1 hr1
+    simp only at hs1 hf1 hr1
+    -- the step leaves every incomparable path alone
+    have hother : ∀ p, TempFree p → Incomparable p t.path → SameBelow st.fs st1.fs (X.env.rootName :: p) := by
+      intro p hp hi
+      apply sameBelow_of_frame st.fs st1.fs (X.env.rootName :: t.path) (X.env.rootName :: p) hf1 (tempFree_root hx hp)
+      · rw [cons_prefix_cons_iff]; exact hi.2
+      · rw [cons_prefix_cons_iff]; exact hi.1
+    have hpre1 : ∀ t' ∈ ts, StepPre X st1.fs t' := by
+      intro t' ht'
+      obtain ⟨h1, h2, h3⟩ := hpre t' (by simp [ht'])
+      refine ⟨h1, h2, repO_same X st.fs st1.fs _ _ _ h3 (hother t'.path h1 ?_)⟩
+      have := hinc t' ht'
+      exact ⟨this.2, this.1⟩
+    obtain ⟨ih1, ih2⟩ := ih st1 (hH.shrinks hs1) hpre1 hpw'
+    rcases htr : transition X.env st1 ts with ⟨rs, st2⟩
+    rw [htr] at ih1 ih2
+    simp only at ih1 ih2
+    simp only [htr]
+    refine ⟨Forall2.cons ?_ ih1, ?_⟩
+    · apply repO_same X st1.fs st2.fs _ _ _ hr1
+      exact ih2 t.path hpt (fun t' ht' => hinc t' ht')
+    · intro p hp hall
+      exact (hother p hp (hall t (by simp))).trans (ih2 p hp (fun t' ht' => hall t' (by simp [ht'])))
+
 end Mutagen.Proofs.FS
